@@ -64,7 +64,9 @@ def known(r, kind):
     return {"kind": kind, "hierarchical_levels": s.get("hierarchical_levels", 4), "logical_processors": s.get("logical_processors"),
             "rate_control_mode": s.get("rate_control_mode", 0), "superres_mode": s.get("superres_mode", 0),
             "is_16bit_pipeline": s.get("is_16bit_pipeline", 0), "bits": r["case"].get("bits", 8),
-            "enc_mode": s.get("enc_mode", 8), "enable_tpl_la": int(s.get("enable_tpl_la", 1))}
+            "enc_mode": s.get("enc_mode", 8), "enable_tpl_la": int(s.get("enable_tpl_la", 1)),
+            "intra_refresh_type": int(s.get("intra_refresh_type", 2)),
+            "pixels_ge_8M": int(r["case"].get("w", 64) * r["case"].get("h", 64) >= 8000000)}
 
 
 def run(res):
